@@ -102,10 +102,54 @@ Print Assumptions C20_shutdown_closes_all.
 Print Assumptions C20_device_descriptors.
 Print Assumptions C20_children.
 
+(* ---------------- the result lists (ArgList: the only heap object shared between the layers, reference-counted in
+   arglist.c) ----------------
+   `referenced st s`: list s is referred to by a command in progress or by an action queued on some device.
+   One pass, from any state of the cross-layer invariant: the store only grows at its end, and every list referred to
+   after the pass either was referred to before it or is one of the lists created during the pass.  So a list that
+   nothing refers to any more (C11_result_lists: that is exactly when its command completed and its last action left the
+   queues, or - client gone - when its orphaned actions did) is never referred to again: what arglist.c frees at reference
+   count zero is never used afterwards, and nothing but the lists of commands in progress and of queued actions is kept. *)
+From PM Require Import Proofs.DaemonFrame Proofs.DaemonSlots Proofs.DaemonRefs.
+Theorem C20_no_stale_result_list : forall expand_str ranged_sorted ranged_plain sorted rmatch compress short_circuit st r st' o,
+  DPInv compress st -> NL st -> 1 <= dm_seq st < INT_MAX ->
+  dstep expand_str ranged_sorted ranged_plain sorted rmatch compress short_circuit st r = Ok (st', o) ->
+  (length (dm_store st) <= length (dm_store st'))%nat /\
+  forall s, referenced st' s -> referenced st s \/ (length (dm_store st) <= s)%nat.
+Proof. exact dstep_ref. Qed.
+Print Assumptions C20_no_stale_result_list.
+(* ... and over any history of passes *)
+Theorem C20_no_stale_result_list_run : forall expand_str ranged_sorted ranged_plain sorted rmatch compress short_circuit rs st acc st' outs,
+  DPInv compress st -> NL st -> 1 <= dm_seq st -> dm_seq st + Z.of_nat (length rs) <= INT_MAX ->
+  drun expand_str ranged_sorted ranged_plain sorted rmatch compress short_circuit st rs acc = Ok (st', outs) ->
+  (length (dm_store st) <= length (dm_store st'))%nat /\
+  forall s, referenced st' s -> referenced st s \/ (length (dm_store st) <= s)%nat.
+Proof. exact drun_ref. Qed.
+Print Assumptions C20_no_stale_result_list_run.
+
+(* non-vacuity: C04's example daemon: after the request `on n1` list 0 is referred to by the command and by its action; after the
+   time-out round the command has completed (210), nothing refers to list 0 any more, and the store still has its one slot *)
+From PM Require Properties.C04 Properties.C07.
+Example C20_result_list_nonvacuous :
+  match dinit C04.ex_st 1000000 [[ConnNow; ConnNow; ConnNow]] with
+  | Ok (st1, _) =>
+    match drun C04.ex_expand C04.ex_join C04.ex_join (fun l => l) C07.ex_rmatch C07.ex_compress false st1 (firstn 2 C04.ex_rounds) [],
+          drun C04.ex_expand C04.ex_join C04.ex_join (fun l => l) C07.ex_rmatch C07.ex_compress false st1 C04.ex_rounds [] with
+    | Ok (sta, _), Ok (stb, _) =>
+        aslots (dm_devs sta) = [(1, 0%nat)] /\ map cmd_slot (dm_clients sta) = [Some 0%nat] /\
+        aslots (dm_devs stb) = [] /\ map cmd_slot (dm_clients stb) = [None] /\ length (dm_store stb) = 1%nat
+    | _, _ => False
+    end
+  | _ => False
+  end.
+Proof. vm_compute. repeat split. Qed.
+
 (* OPEN (DESIGN §5 C20): (1) device side: C20_device_descriptors proves "one descriptor per connected or connecting device"
    for every reachable state, but the device descriptors and coprocess children are FUNCTIONS of the state (dv_has_fd,
    transport kind) tied to the implementation by the per-pass comparison of R-SIM (descriptor and child counts at every
    poll), not derived from the open()/close()/fork()/waitpid() calls of device_tcp.c / device_pipe.c, which
    Model/Device.v abstracts into connect plans.
-   (2) heap: "does not grow from request to request" is not stated: Model/Daemon.v never frees an ArgList slot; the
-   reference counting of arglist.c is outside the model (pmsim's MEM probe is testing only). *)
+   (2) heap: the result lists are covered by C20_no_stale_result_list + C11_result_lists (what is referred to, and that a
+   dropped list is never referred to again); the malloc/free calls themselves (arglist.c reference counts, Action / ExecCtx /
+   Command records, cbufs) are outside the model: LeakSanitizer at exit and the steady-state heap monitor on pmsim (F10, F40
+   were found that way) are testing only. *)
